@@ -123,6 +123,13 @@ type meekConn struct {
 }
 
 func (c *meekConn) Read(p []byte) (int, error) {
+	// Check to see if the connection is actually open.
+	select {
+	case <-c.workerCloseChan:
+		return 0, io.ErrClosedPipe
+	default:
+	}
+
 	// If there is data left over from the previous read,
 	// service the request using the buffered data.
 	if c.rdBuf != nil {
